@@ -375,6 +375,11 @@ fn gen_objects(master: u64, job: u64, tier: Tier) -> Vec<(Obj, String)> {
         let desc = wl.members.iter().map(|m| format!("{} in {}", m.compressor.describe(), m.wrapper.describe())).collect::<Vec<_>>().join("; ");
         v.push((Obj::File(wl.file), desc));
     }
+    if tier == Tier::Thorough && job < workload::SAMPLE_FILES.len() as u64 {
+        if let Some(f) = workload::sample_file(job as usize) {
+            v.push((Obj::File(f), format!("samples/{}", workload::SAMPLE_FILES[job as usize])));
+        }
+    }
     let _ = Compressor::Miniz { level: 1 };
     v
 }
@@ -405,7 +410,7 @@ impl Engine for UpgradeEngine {
     fn jobs(&self, tier: Tier) -> u64 {
         match tier {
             Tier::Quick => 96,
-            Tier::Thorough => 2400,
+            Tier::Thorough => 8000,
         }
     }
 
